@@ -123,6 +123,9 @@ def write_ticks(case):
         if op["op"] in ("batch", "txn"):
             t += 1
             ticks[i] = t
+        elif op["op"] == "race":
+            t += 2
+            ticks[i] = t
     return ticks
 
 
@@ -185,6 +188,31 @@ def case_term(codes, case, obs):
                     deleted = bool(e.get("deleted"))
             terms.append("SGet %d %s %s %s %s %s %s" % (codes.ucode(expand(op["id"])), at, scope, vlib.coq_bool(op.get("merge", False)),
                                                       vlib.coq_bool(found), vlib.coq_list(parts), vlib.coq_bool(deleted)))
+        elif k == "race":
+            # two writers on one dataset under a forced schedule; with a correct lock the outcome is one of two sequential orders
+            lens = list(oo.get("lens") or [])
+            n1 = len(op["ents"])
+            l1 = (lens[:n1] + [0] * n1)[:n1]
+            l2 = (lens[n1:] + [0] * len(op["second"]))[:len(op["second"])]
+            w1 = "SWrite (WBatch %d %s) (-1)" % (ds_code(case, op["ds"]), vlib.coq_list([ent_term(codes, e, l) for e, l in zip(op["ents"], l1)]))
+            w2 = "SWrite (WBatch %d %s) (-1)" % (ds_code(case, op["ds"]), vlib.coq_list([ent_term(codes, e, l) for e, l in zip(op["second"], l2)]))
+            since = tokens.get((op.get("reader"), op["ds"]), 0)
+            ents = vlib.coq_list([oent_term(codes, e, ns) for e in (oo.get("ents") or [])])
+            nxt = oo.get("next", 0) if not (oo.get("err") or oo.get("panic")) else -7
+            tokens[(op.get("reader"), op["ds"])] = oo.get("next", 0)
+            rd = "SChanges %d %d %d false %s %s" % (ds_code(case, op["ds"]), since, op.get("limit", 0), ents, vlib.zlit(nxt))
+            if op["pause_at"] == "lock.wait":
+                terms += [w2, rd, w1]      # writer 1 is held before it takes the lock: writer 2 runs first
+            else:
+                terms += [rd, w1, w2]      # writer 1 is held inside its critical section: the reader sees neither, then 1, then 2
+        elif k == "changes_rev":
+            key = ("rev", op.get("reader"), op["ds"])
+            since = tokens.get(key, 0) if op.get("reader") else op.get("since", 0)
+            ents = vlib.coq_list([oent_term(codes, e, ns) for e in (oo.get("ents") or [])])
+            nxt = oo.get("next", 0) if not (oo.get("err") or oo.get("panic")) else -7
+            if op.get("reader"):
+                tokens[key] = oo.get("next", 0)
+            terms.append("SRev %d %s %d %s %s" % (ds_code(case, op["ds"]), vlib.zlit(since), op.get("limit", 0), ents, vlib.zlit(nxt)))
         elif k == "rawkeys":
             for fam, keys in sorted((oo.get("raw") or {}).items(), key=lambda kv: int(kv[0])):
                 ks = vlib.coq_list([vlib.coq_list(["%d%%N" % b for b in bytes.fromhex(h)]) for h in keys])
@@ -256,6 +284,18 @@ def gen_writes(rng, ndatasets, nops, pool, rich=True):
         d = DS_NAMES[rng.below(ndatasets)]
         ops.append({"op": "batch", "ds": d, "ents": gen_batch(rng, pool, memo, d, rich)})
     return ops
+
+
+def gen_race(rng, pool, memo, ds, reader, rich=True):
+    """a forced two-writer schedule on dataset ds (see the race op of the driver)"""
+    first = gen_batch(rng, pool, memo, ds, rich)
+    second = gen_batch(rng, pool, memo, ds, rich)
+    pause = rng.choice(["batch.beforeIdCommit", "lock.wait"])
+    if pause == "lock.wait":
+        # the model applies second then first: keep memo consistent with that order
+        for e in first:
+            memo[(ds, e["id"])] = {k: v for k, v in e.items() if k != "id"}
+    return {"op": "race", "ds": ds, "ents": first, "second": second, "pause_at": pause, "reader": reader, "limit": 0}
 
 
 def gen_batch(rng, pool, memo, ds, rich):
